@@ -67,9 +67,11 @@ fn check(st: usize, prods: &[(usize, Vec<usize>)]) -> Option<&'static str> {
     if count_lhs(&r.pr, &r.st) != 1 { return Some("the start symbol of the result has exactly one production"); }
     if occurs_on_rhs(&r.pr, &r.st) { return Some("the start symbol of the result occurs on no right-hand side"); }
     let unchanged = r.st == cfg.st && r.pr == cfg.pr;
-    let augmented = r.pr.len() == cfg.pr.len() + 1 && r.pr[1..] == cfg.pr[..] && lhs(&r.pr[0]) == r.st
-        && r.pr[0].get_r().len() == 1 && nt_of(&r.pr[0].get_r()[0]) == Some(cfg.st.as_str()) && !nt_set(&cfg).contains(&r.st);
-    if !(unchanged || augmented) { return Some("shape: unchanged, or one fresh unit production S' -> S prepended"); }
+    // the property does not say WHERE the new start production goes: any position is accepted
+    let augmented = r.pr.len() == cfg.pr.len() + 1 && !nt_set(&cfg).contains(&r.st) && (0..r.pr.len()).any(|k| {
+        let mut rest = r.pr.clone(); let p = rest.remove(k);
+        rest == cfg.pr && lhs(&p) == r.st && p.get_r().len() == 1 && nt_of(&p.get_r()[0]) == Some(cfg.st.as_str()) });
+    if !(unchanged || augmented) { return Some("shape: unchanged, or one fresh unit production S' -> S added"); }
     None
 }
 fn nums(s: &str) -> Vec<i64> { s.split(|c: char| !(c.is_ascii_digit())).filter(|x| !x.is_empty()).map(|x| x.parse().unwrap()).collect() }
@@ -106,7 +108,7 @@ fn main() {
                   "callee: get_non_terminal_set() == {start} + all LHS + all RHS non-terminals",
                   "the start symbol of the result has exactly one production",
                   "the start symbol of the result occurs on no right-hand side",
-                  "shape: unchanged, or one fresh unit production S' -> S prepended"] {
+                  "shape: unchanged, or one fresh unit production S' -> S added"] {
             println!("CHECKED\t{}\t{}", c, cases);
         }
     } else {
